@@ -115,8 +115,10 @@ struct S_map : public inner_op
   layout::loc m_ll;
   unsigned m_cnt[6];
   uint64_t m_out[6][VP_M];
+  bool m_scramble;        // also overwrite the slot below the result (a sub-expression that rearranges its copy of the stack)
+  uint64_t m_junk;
 
-  S_map (layout &l, std::shared_ptr <op> upstream) : inner_op {upstream}, m_ll {l.reserve <state> ()} {}
+  S_map (layout &l, std::shared_ptr <op> upstream) : inner_op {upstream}, m_ll {l.reserve <state> ()}, m_scramble {false}, m_junk {0} {}
   void configure (cfgdec &d, unsigned ninputs, unsigned maxcnt)
   {
     for (unsigned i = 0; i < 6; ++i)
@@ -146,6 +148,8 @@ struct S_map : public inner_op
           {
             auto r = std::make_unique <stack> (*st.m_cur);
             r->pop ();
+            if (m_scramble)
+              r->push (std::make_unique <value_tok> (m_junk, 7));
             r->push (std::make_unique <value_tok> (m_out[id][st.m_k], st.m_k));
             st.m_k++;
             return r;
